@@ -206,8 +206,8 @@ Proof.
   destruct o; cbn [step] in H.
   - apply HR. exact (on_new_worker_RS (s, []) _ _ _ H).
   - destruct (find_proc _ w); [|discriminate]. exact (on_remove_worker_JS (s, []) _ _ _ _ _ _ HC HJ H).
-  - apply HR. exact (handle_submit_array_RS (s, []) _ _ _ _ _ _ _ _ _ H).
-  - destruct (bad_graph_rq _ _); [inversion H; subst; apply HR; apply RS_refl|]. apply HR. exact (handle_submit_graph_RS (s, []) _ _ _ _ _ H).
+  - destruct (bad_submit_lengths _ _); [inversion H; subst; apply HR; apply RS_refl|]. apply HR. exact (handle_submit_array_RS (s, []) _ _ _ _ _ _ _ _ _ H).
+  - destruct (bad_graph_rq _ _); [inversion H; subst; apply HR; apply RS_refl|]. destruct (dead_dep _ _ _); [inversion H; subst; apply HR; apply RS_refl|]. apply HR. exact (handle_submit_graph_RS (s, []) _ _ _ _ _ H).
   - apply HR. unfold handle_open in H. inversion H; subst. apply RS_refl.
   - apply HR. unfold handle_close in H. cbn in H. destruct (find_job _ j) as [jb|]; [|inversion H; subst; apply RS_refl].
     destruct (j_open jb); [|inversion H; subst; apply RS_refl].
